@@ -69,7 +69,7 @@ CLAIM = dict(
          "with the default pattern is not matched by clear()'s glob, complete entries are. Sharing a cache between configurations that compile "
          "differently is NOT covered (key_ignores_configuration; F10a, known finding, negation witness in Findings/F10a.lean). Tie: "
          "Gen/BcCacheSites.lean regenerated each run; Bucket on every truncation offset of real entries, all byte values in the "
-         "magic+checksum region, sampled damage in the marshal region (forked), stale/other-source/foreign-magic entries; crash "
+         "magic+checksum region of one entry (sampled values on the others), sampled damage in the marshal region (forked), stale/other-source/foreign-magic entries; crash "
          "after each of the write path's steps in a forked child and injected OSError/KeyboardInterrupt at each step, directory "
          "compared with the model and re-rendered through a fresh Environment; every history of length <=4 (quick) / <=5 "
          "(thorough) over get/modify/clear/new-environment/3 kinds of truncation on FileSystemBytecodeCache and over a fake "
@@ -237,10 +237,11 @@ def run_unit(ctx, res, jinja2, stats):
             if mg != u.magic:
                 add("foreign-magic", f"src{si}:{label}", mg + data[M:], ck, code)
         # single-byte damage: header and checksum region in process
-        vals = range(256) if not ctx.quick else None
+        vals = range(256) if (not ctx.quick and si == 0) else None     # thorough: every value, on the first entry
+        extra = 3 if ctx.quick else 16
         for off in range(pk_end):
             choices = vals if vals is not None else sorted({data[off] ^ m for m in (0x01, 0x20, 0x80, 0xFF)} |
-                                                            {rng.randrange(256) for _ in range(3)})
+                                                            {rng.randrange(256) for _ in range(extra)})
             for v in choices:
                 if v != data[off]:
                     add("corrupted", f"src{si}@{off}={v}", data[:off] + bytes([v]) + data[off + 1:], ck, code)
@@ -911,8 +912,8 @@ def run(ctx, res):
     res.coverage.update({
         "evaluations": total,
         "distinct_nontrivial": len(s1) + len(s2) + len(s3) + len(s4),
-        "rule": ("(a) for 2-3 real cache entries: the intact entry, EVERY truncation offset, every byte value (thorough; 4 masks + 3 "
-                 "random values quick) at every offset of magic and pickled checksum, sampled bit flips in the marshalled code "
+        "rule": ("(a) for 2-3 real cache entries: the intact entry, EVERY truncation offset, every byte value (thorough, first entry; otherwise 4 "
+                 "masks + 3/16 random values) at every offset of magic and pickled checksum, sampled bit flips in the marshalled code "
                  "(forked: CPython may crash), the older version's entry, another template's entry, 7 foreign magics; non-trivial = "
                  "distinct (kind, entry, offset, value). (b) process death after every prefix of dump_bytecode's operations and "
                  "OSError/KeyboardInterrupt raised at every step, prior entry absent/old. (c) every history of length <= "
